@@ -124,12 +124,40 @@ impl HWorld {
                     }
                 }
             }
-            "mkval" => {
-                let v: Val = serde_json::from_value(op["v"].clone()).unwrap();
-                match catch_unwind(AssertUnwindSafe(|| v.to_engine())) {
-                    Ok(Ok(x)) => res_ok(Val::from_engine(&x)),
-                    Ok(Err(_)) => res_err("TypeMismatch"),
+            "execv" => {
+                let fsch = op["fsch"].as_u64().unwrap() as usize;
+                let ts: Vec<Tok> = serde_json::from_value(op["ts"].clone()).unwrap();
+                let src = render(&ts);
+                let fscheme = &self.schemes[fsch - 1];
+                let parsed = catch_unwind(AssertUnwindSafe(|| fscheme.parse_value(&src).map_err(|_| ())));
+                match parsed {
                     Err(_) => res_err("panic"),
+                    Ok(Err(_)) => res_err("ParseError"),
+                    Ok(Ok(ast)) => {
+                        let f = ast.compile();
+                        match catch_unwind(AssertUnwindSafe(|| f.execute(ctx).map(|r| match r {
+                            Ok(v) => Val::from_engine(&v),
+                            Err(t) => Val::Nil { ty: Some(Ty::from_engine(t)) },
+                        }))) {
+                            Ok(Ok(v)) => res_ok(v),
+                            Ok(Err(_)) => res_err("SchemeMismatch"),
+                            Err(_) => res_err("panic"),
+                        }
+                    }
+                }
+            }
+            "mkval" => {
+                // every public construction route must give the same verdict
+                let v: Val = serde_json::from_value(op["v"].clone()).unwrap();
+                let a = catch_unwind(AssertUnwindSafe(|| v.to_engine()));
+                let b = catch_unwind(AssertUnwindSafe(|| v.to_engine_via_iter()));
+                match (a, b) {
+                    (Ok(Ok(x)), Ok(Ok(y))) => {
+                        if x == y { res_ok(Val::from_engine(&x)) } else { res_err("routes-disagree") }
+                    }
+                    (Ok(Err(_)), Ok(Err(_))) => res_err("TypeMismatch"),
+                    (Err(_), _) | (_, Err(_)) => res_err("panic"),
+                    _ => res_err("routes-disagree"),
                 }
             }
             _ => res_err("unknown-op"),
